@@ -1,9 +1,9 @@
 (* C12 -- stereo signs are permutation-consistent.  Statements only; proofs in Proofs.StereoProofs.
    The two translation tables are regenerated from chython/algorithms/stereo.py on every run. *)
 From Coq Require Import ZArith List Bool.
-From Model Require Import PyBase Graph Stereo StereoRegistry StereoSmiles StereoFix StereoWedge StereoParse.
-From Gen Require Import StereoTables.
-From Proofs Require Import StereoProofs StereoRegistryProofs StereoRegistryDisjoint StereoSmilesProofs StereoFixProofs StereoWedgeProofs StereoParseProofs.
+From Model Require Import PyBase Graph Stereo StereoRegistry StereoSmiles StereoFix StereoWedge StereoParse StereoChiral.
+From Gen Require Import StereoTables StereoConsts.
+From Proofs Require Import StereoProofs StereoRegistryProofs StereoRegistryDisjoint StereoSmilesProofs StereoFixProofs StereoWedgeProofs StereoParseProofs StereoChiralProofs StereoConstsProofs.
 Import ListNotations.
 Open Scope Z_scope.
 
@@ -484,3 +484,97 @@ Theorem C12_parse_marks_example :
   ct_ref (fun x => if x =? 7 then 1 else 5) 3 7 = 7 /\ ct_ref (fun _ => 2) 3 7 = 3.
 Proof. exact parse_marks_example. Qed.
 Print Assumptions C12_parse_marks_example.
+
+(* ====================================================================================================================== *)
+(* EXTENSION ROUND 3: __chiral_centers inside the model (Model.StereoChiral).  Inputs that stay parameters: atoms_rings (SSSR, C06) and
+   the classes w of _chiral_morgan (C01: Model.ChiralMorgan). *)
+
+(* molecules without rings: the chiral tetrahedrons are EXACTLY the stereogenic tetrahedrons whose listed neighbours have pairwise
+   different classes; the chiral cis/trans bonds / allenes EXACTLY the registered even / odd paths whose two ends each carry
+   substituents of different classes (missing second substituent = class 0) *)
+Theorem C12_acyclic_chiral_tetrahedrons : forall r (w : Z -> Z) n,
+  In n (c_t (acyclic_state r w)) <-> exists env, In (n, env) (r_sg_th r) /\ distinct_classes w env = true.
+Proof. exact acyclic_chiral_tetrahedrons. Qed.
+Print Assumptions C12_acyclic_chiral_tetrahedrons.
+
+Theorem C12_acyclic_chiral_cumulenes : forall r (w : Z -> Z),
+  (forall n, In n (c_c (acyclic_state r w)) <->
+     exists pe, In pe (r_sg_cum r) /\ ends_distinct w (snd pe) = true /\ odd_len (fst pe) = false /\ n = first_z (fst pe)) /\
+  (forall c, In c (c_a (acyclic_state r w)) <->
+     exists pe, In pe (r_sg_cum r) /\ ends_distinct w (snd pe) = true /\ odd_len (fst pe) = true /\ c = centre_of (fst pe)).
+Proof. exact acyclic_chiral_cumulenes. Qed.
+Print Assumptions C12_acyclic_chiral_cumulenes.
+
+Theorem C12_acyclic_final_state : forall g r (w : Z -> Z), final_state g r [] w = Ok (acyclic_state r w).
+Proof. exact acyclic_final. Qed.
+Print Assumptions C12_acyclic_final_state.
+
+(* ALL molecules (any rings, any classes): a chiral tetrahedron is a stereogenic tetrahedron without label, a chiral cis/trans entry
+   is the terminal pair of a registered path whose central bond has no label, a chiral allene centre has no label *)
+Theorem C12_chiral_centres_sound : forall g r ar (w : Z -> Z) l, chiral_centres g r ar w = Ok l ->
+  (forall n, In (CT n) l -> In n (keys (r_sg_th r)) /\ labelled g n = false) /\
+  (forall a b, In (CC a b) l -> exists n ij, zget (r_ct_terminals r) n = Some (a, b) /\ zget (r_ct_centers r) n = Some ij /\
+                                             bond_labelled g ij = false) /\
+  (forall c, In (CA c) l -> labelled g c = false).
+Proof. exact chiral_centres_sound. Qed.
+Print Assumptions C12_chiral_centres_sound.
+
+(* no rings: refining the classes never loses a chiral centre *)
+Theorem C12_acyclic_chiral_mono : forall r (w w' : Z -> Z),
+  (forall x y, w x <> w y -> w' x <> w' y) -> (forall x, w x <> 0 -> w' x <> 0) ->
+  (forall n, In n (c_t (acyclic_state r w)) -> In n (c_t (acyclic_state r w'))) /\
+  (forall n, In n (c_c (acyclic_state r w)) -> In n (c_c (acyclic_state r w'))) /\
+  (forall c, In c (c_a (acyclic_state r w)) -> In c (c_a (acyclic_state r w'))).
+Proof. exact acyclic_chiral_mono. Qed.
+Print Assumptions C12_acyclic_chiral_mono.
+
+(* fix_stereo with the chirality MODEL in place of the parameter (no rings): the monotonicity hypothesis of C12_fix_stereo_spec is
+   discharged; what remains a hypothesis is that restoring labels only refines the classes W (C01 territory) *)
+Theorem C12_fix_stereo_acyclic_spec : forall r (W : list label -> Z -> Z),
+  (forall R R', incl R R' -> (forall x y, W R x <> W R y -> W R' x <> W R' y) /\ (forall x, W R x <> 0 -> W R' x <> 0)) ->
+  forall saved, NoDup (map fst saved) ->
+  let result := fix_loop (chiral_model r W) (S (List.length saved)) [] saved in
+  forall cs, In cs saved -> (In cs result <-> chiral_model r W (others cs result) (fst cs) = true).
+Proof. exact fix_stereo_acyclic_spec. Qed.
+Print Assumptions C12_fix_stereo_acyclic_spec.
+
+Theorem C12_chiral_example :
+  (exists r, registries_real ex_triol = Ok r /\
+     chiral_centres ex_triol r [] ex_w_sym = Ok [CT 2; CT 6] /\ chiral_centres ex_triol r [] ex_w_ref = Ok [CT 2; CT 4; CT 6]) /\
+  (forall x y, ex_w_sym x <> ex_w_sym y -> ex_w_ref x <> ex_w_ref y).
+Proof. exact chiral_example. Qed.
+Print Assumptions C12_chiral_example.
+
+Theorem C12_fix_acyclic_example :
+  (forall (R R' : list label), incl R R' ->
+     (forall x y, ex_W_id R x <> ex_W_id R y -> ex_W_id R' x <> ex_W_id R' y) /\ (forall x, ex_W_id R x <> 0 -> ex_W_id R' x <> 0)) /\
+  (exists r, registries_real ex_triol = Ok r /\
+     (fix_loop (chiral_model r ex_W_id) 4 [] ex_saved = ex_saved) /\
+     (fix_loop (chiral_model r ex_W_sym) 4 [] ex_saved = [(CT 2, true); (CT 6, false)])).
+Proof. exact fix_acyclic_example. Qed.
+Print Assumptions C12_fix_acyclic_example.
+
+(* ====================================================================================================================== *)
+(* constants copied from the source are regenerated (Gen.StereoConsts) and pinned *)
+Theorem C12_constants_pinned :
+  src_H = 1 /\ src_C = 6 /\
+  src_cmp_tetrahedrons = [1; 4] /\ src_cmp_cumulenes = [2; 1; 2] /\ src_cmp_stereogenic_tetrahedrons = [3; 4] /\
+  src_cmp_stereogenic_cumulenes = [3; 8; 3; 8; 2; 2; 3; 8; 3; 8; 8; 8; 2; 2] /\
+  src_cmp_chiral_centers = [8; 2; 2; 1; 1] /\ src_cmp_add_wedge = [0; 1; 2; 0; 0; 3; 4; 0] /\ src_cmp_rings_linker_tetrahedrons = [1] /\
+  src_slash_is_true = true /\ src_at_is_true = true.
+Proof. exact constants_pinned. Qed.
+Print Assumptions C12_constants_pinned.
+
+Theorem C12_model_uses_source_constants :
+  (forall g n, is_h g n = (anum g n =? src_H)) /\
+  (forall g na, is_tetra g na =
+     ((a_num (snd na) =? src_C) && (a_chg (snd na) =? 0) && negb (a_rad (snd na)) &&
+      forallb (fun mb => b_ord (snd mb) =? nth 0 src_cmp_tetrahedrons 0) (nbrs g (fst na)) &&
+      negb (nth 1 src_cmp_tetrahedrons 0 <? zlen (nbrs g (fst na))))) /\
+  (forall fs g n, sg_th_entry fs g n =
+     if existsb (fun x => negb (fs (anum g x))) (nbr_ids g n) then []
+     else if (zlen (th_env g n) =? nth 0 src_cmp_stereogenic_tetrahedrons 0) || (zlen (th_env g n) =? nth 1 src_cmp_stereogenic_tetrahedrons 0)
+          then [(n, th_env g n)] else []) /\
+  (forall g t, end_crowded g t = (nth 6 src_cmp_stereogenic_cumulenes 0 <? zlen (filter (fun mb => negb (b_ord (snd mb) =? nth 7 src_cmp_stereogenic_cumulenes 0)) (nbrs g t)))).
+Proof. exact model_uses_source_constants. Qed.
+Print Assumptions C12_model_uses_source_constants.
